@@ -1002,8 +1002,7 @@ func (s *State) evalForInteger(fe *ast.ForExpression, start *int64, end int64, n
 		startValue = int(*start)
 	}
 	endValue := int(end)
-	num := endValue - startValue
-	if num < 0 {
+	if endValue < startValue { // not endValue-startValue < 0: the difference of two int64 can wrap around.
 		return s.Errorf("for loop with negative count [%d,%d[", startValue, endValue)
 	}
 	var ptr *int64
